@@ -28,6 +28,21 @@ def run(ctx):
         return {"a": inv["a"], "files": inv["files"], "o": o, "exp": inv["exp"]}
 
     events = pmap(do, list(enumerate(invs)), nproc=16)
+    # the same protocol on UTF-16 files (output contains 0 bytes; BOM handling): the invocations whose
+    # classes exist in that encoding
+    cfg16, classes16 = drv.make_class_files(unc, ctx.work.sub("world16"), enc="utf-16")
+
+    def do16(job):
+        n, inv = job
+        files = [drv.FileSpec("f%d.c" % (i + 1), classes16[c][0], classes16[c][1], c, "C") for i, c in enumerate(inv["files"])]
+        d = os.path.join(ctx.work.path, "u%06d" % n)
+        o = drv.execute(unc, cfg16, inv["a"], files, d)
+        shutil.rmtree(d, ignore_errors=True)
+        return {"a": inv["a"], "files": inv["files"], "o": o, "exp": inv["exp"], "enc": "utf-16"}
+
+    inv16 = [iv for iv in invs if all(c in classes16 for c in iv["files"]) and (iv["a"]["ifc"] or not quick) and not iv["a"]["quiet"]]
+    events += pmap(do16, list(enumerate(inv16)), nproc=16)
+    ctx.cov["utf16_invocations"] = len(inv16)
     ctx.cov["evaluations"] = len(events)
     ctx.cov["distinct_nontrivial"] = len({json.dumps([e["a"], e["files"]], sort_keys=True) for e in events
                                           if (e["a"]["check"] or e["a"]["ifc"]) and len(e["files"]) >= 1})
@@ -49,10 +64,10 @@ def run(ctx):
             ndrift += 1
             ctx.drift.append({"args": eng.argsig(e["a"]), "files": e["files"], "observed": {k: e["o"][k] for k in ("exit", "pass", "fail", "touched", "stdout")}, "expected": rep["exp"]})
         for b in bad:
-            sig = "%s|%s|%s" % (b, eng.argsig(e["a"]), ",".join(e["files"]))
+            sig = "%s|%s|%s%s" % (b, eng.argsig(e["a"]), ",".join(e["files"]), "|" + e["enc"] if e.get("enc") else "")
             ctx.violation(sig, "%s: `%s` on files %s -> exit=%s pass=%s fail=%s touched=%s stdout=%s" % (
                 b, " ".join(e["o"]["cmd"]), e["files"], e["o"]["exit"], e["o"]["pass"], e["o"]["fail"], e["o"]["touched"], e["o"]["stdout"]),
-                {"kind": "driver", "a": e["a"], "files": e["files"], "observed": e["o"], "expected": rep["exp"]})
+                {"kind": "driver", "a": e["a"], "files": e["files"], "observed": e["o"], "expected": rep["exp"], "enc": e.get("enc")})
     ctx.cov["traces_validated_against_impl"] = len(events) - ndrift
     ctx.cov["drift_invocations"] = ndrift
     ctx.cov["exhaustive"] = True
@@ -65,7 +80,7 @@ def replay(path):
     unc = build("hooks")
     wk = Work("replay")
     try:
-        cfg, classes = drv.make_class_files(unc, wk.sub("world"))
+        cfg, classes = drv.make_class_files(unc, wk.sub("world"), enc=rp.get("enc"))
         files = [drv.FileSpec("f%d.c" % (i + 1), classes[c][0], classes[c][1], c, "C") for i, c in enumerate(rp["files"])]
         o = drv.execute(unc, cfg, rp["a"], files, wk.sub("run"))
         print("command:", " ".join(o["cmd"]))
